@@ -24,9 +24,10 @@ NEG_CFG = "C17_Gen_neg_all"
 NEG_MUST = {"Inv_NoForeignHash": "Buggy_PickleCarriesHash",
             "Inv_DigestIsStructural": "Buggy_DigestUsesProcess",
             "Inv_CompiledComputes": "Buggy_CompiledLosesVars",
-            # round 7: a decorator that reads the wrong one of its options leaves a class with a
-            # hand-written __init__ without a hash that works where dataclasses are frozen
-            "Inv_NothingRaised": "Buggy_OptionsCrossed"}
+            # round 7: an Expression.__hash__ that caches by attribute assignment raises where
+            # dataclasses are frozen, for every class whose hash ends there (hash=False without an
+            # own hash; with Buggy_OptionsCrossed also the ones that write their own __init__)
+            "Inv_NothingRaised": "Buggy_LegacyHashAssigns"}
 # round 2: a second run with the other three switches (own instantiations: a user node with a
 # keyword-only field, a compiled expression using a context name, a DAG next to the equal tree)
 NEG2_CFG = "C17_Gen_neg_all2"
